@@ -85,7 +85,7 @@ func (t *Table) JSON() map[string]interface{} {
 			segs = strings.Split(s, ".")
 		}
 		idx := -1
-		if n, ok := bsonkit.ParseIndex(s); ok && n < 1<<20 {
+		if n, ok := parseIndex(s); ok && n < 1<<20 {
 			idx = n
 		}
 		// positional operator kind of a path segment: "$" implicit, "$[]" all,
@@ -109,6 +109,22 @@ func (t *Table) JSON() map[string]interface{} {
 		}
 	}
 	return out
+}
+
+// parseIndex is the harness's own reading of "a path segment that is an array
+// index": a string of decimal digits (independent of bsonkit.ParseIndex).
+func parseIndex(s string) (int, bool) {
+	if s == "" || len(s) > 9 {
+		return 0, false
+	}
+	n := 0
+	for i := 0; i < len(s); i++ {
+		if s[i] < '0' || s[i] > '9' {
+			return 0, false
+		}
+		n = n*10 + int(s[i]-'0')
+	}
+	return n, true
 }
 
 // digitsOf converts a decimal digit string to a slice of ints.
